@@ -88,10 +88,27 @@ def view_key(x):
     return (norm_base(x), 0)
 
 
+def position_base(x):
+    """(container, version) whose indices a `X.iter().position(..)` / `rposition` result ranges over (Some(i) => i < len(X))"""
+    x = strip_casts(x)
+    if isinstance(x, tuple) and x and x[0] in ("call", "pure") and short(x[1]) in ("position", "rposition") and x[2]:
+        it = x[2][0]
+        while isinstance(it, tuple) and it and it[0] in ("ref", "cast"):
+            it = it[1]
+        if isinstance(it, tuple) and it and it[0] in ("call", "pure") and short(it[1]) in ("iter", "iter_mut") and it[2]:
+            return view_key(it[2][0])
+    return None
+
+
+def same_buffer(k1, k2):
+    return k1 is not None and k2 is not None and k1[1] == k2[1] and canon_text(k1[0]) == canon_text(k2[0])
+
+
 class LenFacts:
     """What the decisions of a path prefix say about LEN(container@version)."""
 
     def __init__(self, conds, key):
+        self.key = key
         self.iv = Interval(0, MAXLEN)
         self.sym = []     # (rel, expr): LEN rel expr   with rel in Ge, Gt, Le, Lt, Eq
         for (e, c, _, _) in conds:
@@ -149,6 +166,14 @@ class LenFacts:
         for (op, other) in self.sym:
             if other == n and op in ("Ge", "Gt", "Eq"):
                 return True
+        # the length itself; an index found by position() over this very buffer, or that with the length as fallback
+        if same_buffer(buffer_key(n), self.key):
+            return True
+        if n[0] in ("call", "pure") and short(n[1]) == "unwrap_or" and len(n[2]) == 2:
+            if same_buffer(position_base(n[2][0]), self.key) and self.ge_expr(n[2][1]):
+                return True
+        if n[0] == "field" and n[1][0] == "downcast" and n[1][2] == "Some" and same_buffer(position_base(n[1][1]), self.key):
+            return True
         # n itself bounded above by a constant that LEN dominates
         ub = upper_bound(n)
         if ub is not None and self.ge_const(ub):
@@ -196,6 +221,9 @@ def upper_bound(e, conds=None):
     if e[0] == "discr":
         return 255
     if e[0] == "field":
+        # Some(i) of position()/rposition(): an index into what is iterated, < its length
+        if e[1][0] == "downcast" and e[1][2] == "Some" and e[1][1][0] in ("call", "pure") and short(e[1][1][1]) in ("position", "rposition"):
+            return MAXLEN - 1
         # index of an Enumerate item: bounded by the length of what is enumerated
         for x in walk_expr(e):
             if isinstance(x, tuple) and x and x[0] in ("call", "pure") and short(x[1]) == "next" and "Enumerate" in x[1]:
